@@ -331,11 +331,10 @@ impl View {
     /// the hypothesis of `eq_linear_scan`: valid FUNCs pairwise disjoint; within each FUNC valid lines
     /// pairwise disjoint and same-depth inlinees pairwise disjoint as half-open intervals
     /// `[addr, addr+size)` (computed without wrap-around); WIN records of each type pairwise disjoint
-    ///
-    /// `strict = false`: plain set semantics — a size-0 inlinee is an empty interval and overlaps
-    /// nothing. The two differ exactly when a size-0 inlinee lies strictly inside a sibling of the
-    /// same depth (known finding `C11-zero-size-inlinee`).
-    fn non_overlapping(&self, strict: bool) -> bool {
+    /// A size-0 inlinee is an empty interval: it overlaps nothing (and the parser drops it — the
+    /// finding `C11-zero-size-inlinee`, fixed by /repo 2be1766, was that it used to hide the sibling
+    /// it lies in).
+    fn non_overlapping(&self) -> bool {
         let fr: Vec<_> = self.funcs.iter().filter_map(|f| range_excl(f.addr, f.size)).collect();
         if !pairwise_disjoint(&fr) {
             return false;
@@ -354,7 +353,7 @@ impl View {
             for i in 0..f.inls.len() {
                 for j in i + 1..f.inls.len() {
                     let (x, y) = (&f.inls[i], &f.inls[j]);
-                    if x.0 == y.0 && (strict || (x.2 > 0 && y.2 > 0)) {
+                    if x.0 == y.0 && x.2 > 0 && y.2 > 0 {
                         let xe = x.1 as u128 + x.2 as u128;
                         let ye = y.1 as u128 + y.2 as u128;
                         if !(xe <= y.1 as u128 || ye <= x.1 as u128) {
@@ -427,7 +426,7 @@ impl View {
 }
 
 /// the property's oracle on one implementation answer
-fn oracle(v: &View, clean: bool, clean_set: bool, base: u64, instr: u64, got: &Frame, ws: Option<&Frame>, msize: u32, out: &mut Vec<(String, String)>, tags: &mut Vec<String>) {
+fn oracle(v: &View, clean: bool, base: u64, instr: u64, got: &Frame, ws: Option<&Frame>, msize: u32, out: &mut Vec<(String, String)>, tags: &mut Vec<String>) {
     let mut fail = |class: &str, detail: String| out.push((class.to_string(), format!("instr {instr} base {base}: {detail}")));
     // bases never exceed the instruction
     if let Some((_, b, _)) = &got.func {
@@ -592,13 +591,10 @@ fn oracle(v: &View, clean: bool, clean_set: bool, base: u64, instr: u64, got: &F
         }
     }
     // non-overlapping files: the result equals the independent linear scan
-    // (files that are non-overlapping only because a size-0 INLINE range is an empty interval: the
-    //  known finding — such a range hides the sibling it lies in from the (depth, address) search)
-    if clean || clean_set {
+    if clean {
         let want = v.linear_scan(base, instr);
         if want != *got {
-            let class = if clean { "differs-from-linear-scan" } else { "zero-size-inlinee-hides-sibling" };
-            fail(class, format!("fill_symbol {got:?}, linear scan {want:?}"));
+            fail("differs-from-linear-scan", format!("fill_symbol {got:?}, linear scan {want:?}"));
         }
     }
 }
@@ -662,7 +658,7 @@ impl Gen<'_> {
                 rs.push((pieces[i].0, 0)); // zero-size inlinee at the start (sorts before its sibling)
             }
             if self.rng.chance(1, 40) && pieces[i].1 > pieces[i].0 + 1 {
-                rs.push((pieces[i].0 + 1, 0)); // zero-size inlinee strictly inside its sibling (known finding)
+                rs.push((pieces[i].0 + 1, 0)); // zero-size inlinee strictly inside its sibling (finding C11-zero-size-inlinee, fixed)
             }
             let depth = if !self.clean && self.rng.chance(1, 25) { d + 1 } else { d }; // depth gap
             out.push(R::Inline(depth, line, file, origin, rs));
@@ -1009,11 +1005,12 @@ fn exec_inner(case: &str) -> ImplResult {
             }
         };
         let v = view(&c.recs);
-        let clean = v.non_overlapping(true);
-        let clean_set = v.non_overlapping(false);
+        let clean = v.non_overlapping();
         res.tags.push(if clean { "file:non-overlapping".into() } else { "file:overlapping".into() });
-        if clean_set && !clean {
-            res.tags.push("file:non-overlapping-but-zero-size-inlinee-inside-sibling".into());
+        if v.funcs.iter().any(|f| {
+            f.inls.iter().any(|z| z.2 == 0 && f.inls.iter().any(|x| x.0 == z.0 && x.1 < z.1 && (z.1 as u128) < x.1 as u128 + x.2 as u128))
+        }) {
+            res.tags.push("has:zero-size-inlinee-inside-sibling".into());
         }
         res.tags.push(format!("funcs:{}", v.funcs.len()));
         // generator quality: which of the quantifier's shapes this file has
@@ -1090,7 +1087,7 @@ fn exec_inner(case: &str) -> ImplResult {
                 if fr.func.is_some() {
                     res.nontrivial = true;
                 }
-                oracle(&v, clean, clean_set, c.base, q, fr, ws.as_ref().ok(), c.msize, &mut res.oracle, &mut res.tags);
+                oracle(&v, clean, c.base, q, fr, ws.as_ref().ok(), c.msize, &mut res.oracle, &mut res.tags);
             }
             parts.push(format!("{q}:{a};ws={b}"));
         }
